@@ -123,6 +123,7 @@ def main():
         tier = os.environ.get("VERIF_TIER", "quick")
     seed = int(os.environ.get("VERIF_SEED", "1") or "1")
     prop = load_prop(pid)
+    GOENV["VERIF_TIER"] = tier
     t0 = time.time()
     os.makedirs(os.path.join(VERIF, "evidence"), exist_ok=True)
     os.makedirs(os.path.join(VERIF, "replays"), exist_ok=True)
@@ -174,7 +175,7 @@ def main():
             for m in re.finditer(r"THEOREM (\S+) AXIOMS ?(.*)", out):
                 name = m.group(1)
                 last = name.split(".")[-1]
-                if re.match(r"(eq_\d+|eq_def|match_\d+|proof_\d+|congr_simp|sizeOf_spec|injEq|inj|noConfusion.*)$", last):
+                if re.match(r"(eq_\d+|eq_def|match_\d+|proof_\d+|congr_simp|sizeOf_spec|injEq|inj|noConfusion.*|ofNat_ctorIdx|ctorIdx.*|brecOn.*|below.*|rec.*|casesOn.*)$", last):
                     continue
                 axs = [a.strip() for a in m.group(2).split(",") if a.strip()]
                 theorems.append((name, axs))
